@@ -78,6 +78,9 @@ static pint cmp_data(pconstpointer a, pconstpointer b, ppointer data)
         viol("C14", s, "comparator was handed a key that had already been passed to the key destroy notifier (rank %d serial %d)",
              (x->serial >= 0 && x->destroyed >= x->inserted) ? x->rank : y->rank, (x->serial >= 0 && x->destroyed >= x->inserted) ? x->serial : y->serial);
     }
+    /* a comparator only promises the sign: mode 0 returns the difference of the ranks, mode 2 a multiple of it, the plain comparator of mode 1 (and 3, 4) -1 / 0 / 1 */
+    if (MODE == 0) return x->rank - y->rank;
+    if (MODE == 2) return (x->rank - y->rank) * 45;
     return x->rank < y->rank ? -1 : (x->rank > y->rank ? 1 : 0);
 }
 static pint cmp_plain(pconstpointer a, pconstpointer b) { return cmp_data(a, b, &cookie); }
